@@ -584,6 +584,16 @@ func FFilter(op, key string, c Node) Frag {
 	return f
 }
 
+// FFilterMM is `@.ka<fa> == @.kb<fb>` with fa, fb a wildcard or slice fragment: two multi-valued operands.
+func FFilterMM(ka string, fa Frag, kb string, fb Frag) Frag {
+	return Frag{"f": "filter", "op": "mm", "ka": ka, "fa": fa, "kb": kb, "fb": fb, "c": Null()}
+}
+
+// FFilterRoot is `@.key == $.rk`: the right operand comes from the root of the evaluation.
+func FFilterRoot(key, rk string) Frag {
+	return Frag{"f": "filter", "op": "eqr", "key": key, "rk": rk, "c": Null()}
+}
+
 func num(v any) int { return int(toInt(v)) }
 
 // ToInt converts a decoded JSON number.
@@ -631,6 +641,21 @@ func equationOf(f Frag) *jp.Equation {
 		}
 	}
 	switch op {
+	case "mm":
+		sub := func(k string, fr any) jp.Expr {
+			x := jp.A().C(k)
+			m, _ := fr.(map[string]any)
+			if m["f"] == "wild" {
+				return x.W()
+			}
+			return append(x, SliceOf(m))
+		}
+		ka, _ := f["ka"].(string)
+		kb, _ := f["kb"].(string)
+		return jp.Eq(jp.Get(sub(ka, f["fa"])), jp.Get(sub(kb, f["fb"])))
+	case "eqr":
+		rk, _ := f["rk"].(string)
+		return jp.Eq(jp.Get(jp.A().C(key)), jp.Get(jp.R().C(rk)))
 	case "eqk":
 		return jp.Eq(jp.Get(jp.A().C(key)), ce)
 	case "gtk":
